@@ -806,9 +806,9 @@ theorem fal_fa_ok {root : Val} (hroot : ∃ c xs, root = .list c xs) (hko : Keys
 
 /-- **every key of a result on a list root spells the position of its value** -/
 theorem fal_findall_spells (c : Cls) (xs : List Val) (hko : KeysOkV (.list c xs)) (e : Str)
-    (fuel : Nat) (f : Found)
-    (h : (findallTop fuel fresh (.list c xs) e).res = .ok (some f)) : FalRes (.list c xs) f :=
-  fal_fa_ok ⟨c, xs, rfl⟩ hko true fuel _ _ _ _ [] [] (FalInv.start _) f h
+    (fuel : Nat) (f : Found) (re : Bool := true)
+    (h : (findallTop fuel fresh (.list c xs) e re).res = .ok (some f)) : FalRes (.list c xs) f :=
+  fal_fa_ok ⟨c, xs, rfl⟩ hko re fuel _ _ _ _ [] [] (FalInv.start _) f h
 
 /-- item access on `'//'` returns the list root -/
 theorem fal_getItem_root (fuel : Nat) (c : Cls) (xs : List Val) :
